@@ -206,8 +206,9 @@ pub fn compare(case: &Case, e: &ScEval, detail: &mut serde_json::Value) -> Optio
             ));
         }
     }
-    // ---- trace validation
-    if !e.has_atomics {
+    // ---- trace validation (values of atomic operations are taken from the record: loom's
+    // atomics are weaker than the reference's sequentially consistent ones)
+    if !p.has(|o| matches!(o, Op::Await { .. })) {
         let mut o = refsc::Opts::new();
         o.notify_any = true;
         o.clocks = false;
@@ -226,7 +227,7 @@ pub fn compare(case: &Case, e: &ScEval, detail: &mut serde_json::Value) -> Optio
             } else {
                 refsc::End::Complete
             };
-            if !m.accepts(&r.log, &r.results, end) {
+            if m.replay(&r.log, &r.results, end, e.has_atomics) == refsc::Replay::Rejected {
                 let trace: Vec<String> = r.log.iter().map(|(t, i)| format!("t{}:{}", t, p.threads[*t as usize][*i as usize])).collect();
                 detail["bad_trace"] = serde_json::json!({"log": trace, "results": fmt_outcome(&r.results), "aborted": r.aborted});
                 return Some((
